@@ -230,12 +230,15 @@ func decCorr(c *Ctx) {
 		cases = append(cases, fmt.Sprintf("mkDC (%s)\n  (%s)", fc, dt))
 		c.Res.CaseInputs = appendCase(c.Res.CaseInputs, "mismatch_decorate", s)
 		c.Res.CaseInputs = appendCase(c.Res.CaseInputs, "mismatch_tokens", s)
+		c.Res.CaseInputs = appendCase(c.Res.CaseInputs, "mismatch_alias", s)
 		c.Res.Traces++
 	}
 	c.caseSB.WriteString(coqCaseHeader + "From DV Require Import Model.FragSkel Model.Link Model.Fragment Model.FragCases Model.Decorate Model.DecCases Gen.Universe Gen.FragTbl Gen.DecTbl Gen.RestTbl.\nLocal Open Scope Z_scope.\n")
 	c.caseSB.WriteString("Definition dcases : list dcase := [\n" + strings.Join(cases, ";\n") + "].\n")
 	c.caseSB.WriteString("Definition mismatch_decorate := Eval vm_compute in bad_dcases frag_tbl ast_stmt_kinds ast_decl_kinds dec_universe dec_tbl dcases.\nPrint mismatch_decorate.\n")
-	c.caseSB.WriteString("Definition mismatch_tokens := Eval vm_compute in bad_tokens frag_tbl ast_stmt_kinds ast_decl_kinds dec_universe dec_tbl rest_tbl dcases.\nPrint mismatch_tokens.\nLocal Close Scope Z_scope.\n")
+	c.caseSB.WriteString("Definition mismatch_tokens := Eval vm_compute in bad_tokens frag_tbl ast_stmt_kinds ast_decl_kinds dec_universe dec_tbl rest_tbl dcases.\nPrint mismatch_tokens.\n")
+	// the hypothesis of the end-to-end theorem: File.Imports holds specs of the file's declarations
+	c.caseSB.WriteString("Definition mismatch_alias := Eval vm_compute in bad_alias dcases.\nPrint mismatch_alias.\nLocal Close Scope Z_scope.\n")
 }
 
 // Correspondence of the whole pipeline  fragment ; link ; decorate ; restore  against the real
